@@ -47,6 +47,13 @@ Example C01_worst :
   hand_rank_value false [layout 3 1; layout 2 1; layout 1 1; layout 0 1; layout 12 1] = Ok 10.
 Proof. split; vm_compute; reflexivity. Qed.
 
+From CKC Require Import Model.Proj Proofs.ProjC01.
+(* the `perm5` line of the correspondence check is the constant `1 1` on five distinct real cards: all 120 slot
+   orders, through every five-card entry point, give the one in-range value of the given order *)
+Theorem C01_projection : forall chk ws, Hand5 ws -> proj_perm5 chk ws = Ok [true; true].
+Proof. exact proj_perm5_const. Qed.
+
 Print Assumptions C01_value.
 Print Assumptions C01_order.
 Print Assumptions C01_onto.
+Print Assumptions C01_projection.
